@@ -785,6 +785,12 @@ def record_run(cfg):
                     o.w_max = 0.5 * (float(o.w_min) + float(o.w_max))
                     changed = ['w_max']
                 rec['narrowed'] = dict(at=2, names=changed)
+            elif cfg['hook'] == 'reiter' and sum(1 for e_ in events if e_['t'] == 'hook') == cfg.get('reiter_at', 2):
+                # the iteration budget declared on the space changed through its public (validated) setter while the task runs
+                # (by default at the third hook call, i.e. after at least one adaptation step): the schedules that read
+                # `space.n_iterations` follow the value it has now; the optimizer's own hyperparameters are not touched
+                s.n_iterations = int(cfg.get('reiter_n', 10 * cfg['n_iter']))
+                rec['reiter'] = dict(at=cfg.get('reiter_at', 2), n=int(s.n_iterations))
             elif cfg['hook'] == 'nudgebest' and sum(1 for e_ in events if e_['t'] == 'hook') >= 1:
                 # the incumbent's position snapped / shifted in place (inside the box) while its fitness stays what it was, as a
                 # hook that rounds the best solution to a grid would do: the records describe the best agent as it then is
